@@ -33,6 +33,7 @@ type Prog struct {
 	mu       sync.Mutex
 	modMu    sync.Mutex
 	ordMu    sync.Mutex
+	PureMethods map[string]bool
 	ords     map[*ssa.Function]map[ssa.Instruction]map[string]int
 }
 
@@ -488,6 +489,13 @@ func (p *Prog) callMods(c *ssa.CallCommon, m *ModSet) {
 	}
 	callee := c.StaticCallee()
 	if callee == nil {
+		if c.Method != nil {
+			if n, ok := c.Value.Type().(*types.Named); ok {
+				if p.PureMethods[n.Obj().Name()+"."+c.Method.Name()] || n.Obj().Name() == "Locker" {
+					return // assumed pure (listed in the evidence)
+				}
+			}
+		}
 		m.All = true
 		return
 	}
